@@ -13,6 +13,8 @@ use crate::{cgi, Config, ExitStatus};
 
 mod util;
 
+#[cfg(fastcgi_server_verif)]
+pub use util::verif;
 use util::{RepeatableLockFuture, WaitGroup};
 
 
